@@ -153,8 +153,14 @@ def _remove_node_and_replace_values(
     # Update graph/function outputs if the node generates output
     if any(remove_value.is_graph_output() for remove_value in remove_values):
         replacement_mapping = dict(zip(remove_values, new_values))
+        # What each removed graph output has been redirected to: a value listed several
+        # times as a graph output must be redirected to the same value each time
+        redirected: dict[ir.Value, ir.Value] = {}
         for idx, graph_output in enumerate(graph.outputs):
             if graph_output in replacement_mapping:
+                if graph_output in redirected:
+                    graph.outputs[idx] = redirected[graph_output]
+                    continue
                 new_value = replacement_mapping[graph_output]
                 if new_value.is_graph_output() or new_value.is_graph_input():
                     # If the new value is also a graph input/output, we need to
@@ -172,6 +178,7 @@ def _remove_node_and_replace_values(
                         ],
                     )
                     # reuse the name of the graph output
+                    redirected[graph_output] = identity_node.outputs[0]
                     graph.outputs[idx] = identity_node.outputs[0]
                     graph.insert_before(
                         remove_node,
@@ -187,6 +194,7 @@ def _remove_node_and_replace_values(
                         new_value.type = graph_output.type
                     if new_value.shape is None:
                         new_value.shape = graph_output.shape
+                    redirected[graph_output] = new_value
                     graph.outputs[idx] = new_value
 
     # Reconnect the users of the deleted values to use the new values
